@@ -108,6 +108,8 @@ func main() {
 		os.Exit(2)
 	}
 
+	c19.Watchdog()
+
 	d, err := c19.New(opt, w)
 	if err == nil {
 		err = d.Run()
